@@ -401,7 +401,9 @@ nodesLoop:
 			outOfPlace := true
 			if len(tc.ancestors) > 0 {
 				parent := tc.ancestors[len(tc.ancestors)-1]
-				if cas, ok := parent.(*ast.Case); ok {
+				// The statement must be in the body of the case, not in a
+				// block nested in it.
+				if cas, ok := parent.(*ast.Case); ok && len(cas.Body) == len(nodes) && &cas.Body[0] == &nodes[0] {
 					nn := len(nodes)
 				CASE:
 					switch i {
